@@ -33,6 +33,10 @@ Corners:
                   multi-root document to each other and to themselves; cross-loaded three ways against what was saved.
                   Root and inner classes also carry attributes/references NAMED like local names of XMI/XSI syntax
                   (version, type, id, nil, schemaLocation, idref, uuid, xmi, xsi; string/int, single/many, set/unset).
+                  Plain stored attributes flagged volatile / unsettable / changeable=False (never transient/derived)
+                  keep their values; many-valued string attributes hold values with tabs, line breaks and other
+                  white space (no blank, no empty value); classifiers carry instanceTypeName / instanceClassName
+                  (EXTRA_VIEWS, keys marked '+', compared in every signature).
       The structural signature also compares, on both sides, the DERIVED value `many` every typed element reports
       (DERIVED_VIEWS, keys marked '~'), next to the stored bounds.
   correspondence (ties coq/Gen/EcoreMM.v, i.e. the translator's reading of pyecore/ecore.py, to the running library):
@@ -153,6 +157,8 @@ def element_sig(obj):
             out[n] = [element_sig(x) for x in vals]
         else:
             out[n] = [qname(x) for x in v] if mf.many else qname(v)
+    for n in EXTRA_VIEWS.get(mc, []):
+        out['+' + n] = obj.eGet(n)
     for n in DERIVED_VIEWS.get(mc, []):
         # what the element REPORTS (cached / derived reflective value), next to the stored bounds it is derived from
         try:
@@ -168,8 +174,15 @@ def element_sig(obj):
 DERIVED_VIEWS = {'EAttribute': ['many'], 'EReference': ['many'], 'EOperation': ['many'], 'EParameter': ['many']}
 
 
+# further STORED string meta-attributes of classifiers compared on both sides ('+' marks them; kept out of
+# SIGNATURE_FEATURES, the list tied to coq/Model/EcoreTable.v): the Java-side names a metamodel may carry
+EXTRA_VIEWS = {'EClass': ['instanceTypeName', 'instanceClassName'], 'EEnum': ['instanceTypeName'],
+               'EDataType': ['instanceTypeName']}
+
+
 def sig_keys(mc):
-    return SIG_BY_CLASS.get(mc, []) + ['~' + n for n in DERIVED_VIEWS.get(mc, [])]
+    return SIG_BY_CLASS.get(mc, []) + ['+' + n for n in EXTRA_VIEWS.get(mc, [])] \
+        + ['~' + n for n in DERIVED_VIEWS.get(mc, [])]
 
 
 def signature(epackage):
@@ -530,6 +543,10 @@ def build(desc):
                     x.default_value = c['default']
             else:
                 x = E.EDataType(c['name'], instanceClassName=c['instanceClassName'])
+            if c.get('instanceTypeName') is not None:
+                x.instanceTypeName = c['instanceTypeName']
+            if c['kind'] == 'class' and c.get('instanceClassName') is not None:
+                x.instanceClassName = c['instanceClassName']
             mk_annotations(x, c.get('annotations'))
             p.eClassifiers.append(x)
             table[q] = x
@@ -2687,6 +2704,25 @@ def gen_idroot_desc(rng, stats=None):
                                            upper=rng.choice([1, 1, 1, -1])))
             if stats is not None:
                 stats[f'features named {nm}'] = stats.get(f'features named {nm}', 0) + 1
+    # many-valued string attributes (values with tabs, line breaks, other white space: gen_id_instances)
+    for c in (unit, part):
+        if rng.random() < 0.7:
+            c['features'].append(_attr('notes', 'ecore:EString', upper=-1, unique=rng.random() < 0.5))
+    # plain stored attributes flagged volatile / unsettable / not changeable (never transient or derived): stored in
+    # the object like any other, saved and loaded like any other
+    for c in (unit, part):
+        for f in c['features']:
+            if f['kind'] == 'attr' and not f['iD'] and rng.random() < 0.3:
+                flag = rng.choice(['volatile', 'volatile', 'unsettable', 'changeable'])
+                f[flag] = flag != 'changeable'
+                if stats is not None:
+                    stats[f'attributes flagged {flag}' + ('=False' if flag == 'changeable' else '')] = \
+                        stats.get(f'attributes flagged {flag}' + ('=False' if flag == 'changeable' else ''), 0) + 1
+        # the Java-side names of the classifier
+        if rng.random() < 0.4:
+            c['instanceTypeName'] = rng.choice(['org.acme.' + c['name'], 'java.util.Map<K, V>', 'x.Y$Z'])
+        if rng.random() < 0.3:
+            c['instanceClassName'] = rng.choice(['org.acme.' + c['name'] + 'Impl', 'java.lang.Object'])
     root['classifiers'].append(unit)
     (sub if sub is not None else root)['classifiers'].append(part)
     if stats is not None:
@@ -2696,6 +2732,8 @@ def gen_idroot_desc(rng, stats=None):
 
 
 XMI_SYNTAX_NAMES = ['version', 'type', 'id', 'nil', 'schemaLocation', 'idref', 'uuid', 'xmi', 'xsi']
+WS_TEXTS = ['name\tprice', 'nail\t2', 'two\nlines', 'a\n\tb', 'x\u00a0y', 'thin\u2009space', 'wide\u3000gap', 'plain',
+            'em\u2003dash']      # (no control characters XML cannot carry)
 SYNTAX_TEXTS = ['1.7', 'release two', 'org:Unit', 'true', 'http://a b', 'x', '2.0.1', '#//Unit']
 ID_TEXTS = ['HQ', 'U2', 'north', 'x-1', 'B_7', 'Zeta', 'a.b', 'r0', 'K', 'unit9', 'É1', 'p:q']
 ID_STATS = {}
@@ -2771,6 +2809,19 @@ def gen_id_instances(mm, rng):
                 u.peers.append(to_root(x))
         if parts and Unit.findEStructuralFeature('chief') is not None and rng.random() < 0.5:
             u.chief = rng.choice(parts)
+    for o in units + parts:
+        f = o.eClass.findEStructuralFeature('notes')
+        if f is not None and rng.random() < 0.7:
+            vals = rng.sample(WS_TEXTS, rng.randint(1, 3))            # no blank, no empty value
+            o.eGet(f).extend(vals)
+            st['many-valued string values with white space other than a blank'] = \
+                st.get('many-valued string values with white space other than a blank', 0) \
+                + sum(1 for v in vals if v != 'plain')
+    for o in units + parts:
+        for f in o.eClass.eAllAttributes():
+            if f.volatile or f.unsettable or not f.changeable:
+                if o.eGet(f) not in (None, [], '') and (f.many and len(o.eGet(f)) or not f.many and f in o._isset):
+                    st['values of flagged attributes'] = st.get('values of flagged attributes', 0) + 1
     for o in units + parts:
         for f in o.eClass.eAllStructuralFeatures():
             if f.name not in XMI_SYNTAX_NAMES or rng.random() < 0.35:
